@@ -121,9 +121,10 @@ let share_predict (dec : string) (preload : string) (mws : string) (cfg : string
                                   else Some ((k, vs), nat_of_int (append_slack (List.length vs)))) cfg
     | "raw" -> List.map (fun (k, vs) -> ((k, vs), O)) cfg                      (* decodedConfigHeaders.Clone() *)
     | _ -> List.map (fun (k, vs) -> ((k, vs), O)) cfg @ file1 in              (* Clone(), then Set per entry header *)
-  let mwl = List.map (fun m -> match String.split_on_char '.' m with
-      | k :: _ -> MwAdd (if k = "-" then "Date" else hex_decode k) | _ -> failwith "mw") (split ',' mws) in
-  let c = { p_clip = true; p_gc = (fun n -> n); p_mws = mwl; p_own = (fun _ -> own); p_stored = (fun _ -> stored) } in
+  (* the middleware body and the clipping of shared slices are what the translator read from the source (Gen/HeaderShareGen.v) *)
+  let mwl = List.concat_map (fun m -> match String.split_on_char '.' m with
+      | k :: _ -> gen_headerdate_mw (if k = "-" then "Date" else hex_decode k) | _ -> failwith "mw") (split ',' mws) in
+  let c = { p_clip = gen_enrich_clip; p_gc = (fun n -> n); p_mws = mwl; p_own = (fun _ -> own); p_stored = (fun _ -> stored) } in
   let case_ops = split ',' ops and items = split ' ' obs in
   if List.length case_ops <> List.length items then ("run", "BAD:hshare:" ^ (if String.length obs > 40 then String.sub obs 0 40 else obs), false)
   else begin
